@@ -261,7 +261,167 @@ Proof.
   - apply (forallb_impl _ _ ds (fun d H => proj2 (proj1 (andb_true_iff _ _) H)) Hbodies).
 Qed.
 
+(* ---------- `defined` in the source list ---------- *)
+Definition is_def (t : tok) : bool := is_id t && is_txt "defined" t.
+
+(* well-formed source list: every `defined` is followed by an identifier or by ( identifier );
+   every other token is admissible for the fragment *)
+Fixpoint wfd2 (ts : list tok) : bool :=
+  match ts with
+  | [] => true
+  | t :: r =>
+      if is_def t then
+        match r with
+        | x :: r1 =>
+            if is_punct "(" x then
+              match r1 with
+              | id :: c :: r2 => is_id id && is_punct ")" c && wfd2 r2
+              | _ => false
+              end
+            else is_id x && negb (is_txt "(" x) && wfd2 r1
+        | [] => false
+        end
+      else okd t && wfd2 r
+  end.
+
+Lemma items_ind (P : list tok -> Prop) :
+  P [] ->
+  (forall t x r, is_def t = true -> is_punct "(" x = false -> is_id x = true -> is_txt "(" x = false ->
+                 P r -> P (t :: x :: r)) ->
+  (forall t x id c r, is_def t = true -> is_punct "(" x = true -> is_id id = true -> is_punct ")" c = true ->
+                      P r -> P (t :: x :: id :: c :: r)) ->
+  (forall t r, is_def t = false -> okd t = true -> P r -> P (t :: r)) ->
+  forall ts, wfd2 ts = true -> P ts.
+Proof.
+  intros H0 H1 H2 H3 ts.
+  assert (Hn : forall n l, List.length l <= n -> wfd2 l = true -> P l).
+  { induction n as [|n IH]; intros l Hl Hw.
+    - destruct l; [exact H0|cbn in Hl; lia].
+    - destruct l as [|t r]; [exact H0|]. cbn [wfd2] in Hw.
+      destruct (is_def t) eqn:Hd.
+      + destruct r as [|x r1]; [discriminate|].
+        destruct (is_punct "(" x) eqn:Hp.
+        * destruct r1 as [|id [|c r2]]; try discriminate.
+          rewrite !andb_true_iff in Hw. destruct Hw as [[Hi Hc] Hw].
+          apply H2; try assumption. apply IH; [cbn in Hl; lia|assumption].
+        * rewrite !andb_true_iff, negb_true_iff in Hw. destruct Hw as [[Hx Hnp] Hw].
+          apply H1; try assumption. apply IH; [cbn in Hl; lia|assumption].
+      + rewrite andb_true_iff in Hw. destruct Hw as [Ho Hw].
+        apply H3; try assumption. apply IH; [cbn in Hl; lia|assumption]. }
+  intros Hw. exact (Hn (List.length ts) ts (le_n _) Hw).
+Qed.
+
+Lemma is_punct_txt s x : is_punct s x = true -> is_txt s x = true.
+Proof. unfold is_punct, is_txt. rewrite andb_true_iff. tauto. Qed.
+
+(* the source list after the evaluation of `defined` (6.10.1), on implementation tokens *)
+Definition numd (d x : tok) : tok :=
+  mkTok KNum (tw d) (match dlookup ds (tt x) with Some _ => "1" | None => "0" end) true.
+Fixpoint DSt (ts : list tok) : list tok :=
+  match ts with
+  | [] => []
+  | t :: r =>
+      if is_def t then
+        match r with
+        | x :: r1 =>
+            if is_punct "(" x then
+              match r1 with
+              | id :: _ :: r2 => numd t id :: DSt r2
+              | _ => []
+              end
+            else numd t x :: DSt r1
+        | [] => []
+        end
+      else t :: DSt r
+  end.
+
+Lemma wfd2_wfd ts : wfd2 ts = true -> wfd ts = true.
+Proof.
+  apply (items_ind (fun l => wfd l = true)); [reflexivity| | |].
+  - intros t x r Hd Hp Hx Hnp IH. cbn [wfd]. unfold is_def in Hd. rewrite Hd, Hnp, Hx. exact IH.
+  - intros t x id c r Hd Hp Hi Hc IH. cbn [wfd]. unfold is_def in Hd.
+    rewrite Hd, (is_punct_txt _ _ Hp), Hi, (is_punct_txt _ _ Hc). exact IH.
+  - intros t r Hd Ho IH. cbn [wfd]. unfold is_def in Hd. rewrite Hd.
+    unfold okd in Ho. rewrite !andb_true_iff in Ho. destruct Ho as [[Hx _] _]. now rewrite Hx.
+Qed.
+
+Lemma okd_numd d x : okd (numd d x) = true.
+Proof. unfold numd. destruct (dlookup ds (tt x)); reflexivity. Qed.
+
+Lemma DSt_okd ts : wfd2 ts = true -> forallb okd (DSt ts) = true.
+Proof.
+  apply (items_ind (fun l => forallb okd (DSt l) = true)); [reflexivity| | |].
+  - intros t x r Hd Hp _ _ IH. cbn [DSt]. rewrite Hd, Hp. cbn [forallb]. now rewrite okd_numd.
+  - intros t x id c r Hd Hp _ _ IH. cbn [DSt]. rewrite Hd, Hp. cbn [forallb]. now rewrite okd_numd.
+  - intros t r Hd Ho IH. cbn [DSt]. rewrite Hd. cbn [forallb]. now rewrite Ho.
+Qed.
+
+Lemma sdefined_DSt ts : wfd2 ts = true ->
+  sdefined (stable_of_defs ds) (map btok_of ts) = Ok (map btok_of (DSt ts)).
+Proof.
+  apply (items_ind (fun l => sdefined (stable_of_defs ds) (map btok_of l) = Ok (map btok_of (DSt l)))); [reflexivity| | |].
+  - intros t x r Hd Hp Hx _ IH. cbn [map sdefined DSt]. rewrite Hd, Hp.
+    change (b_is KId "defined" (btok_of t)) with (is_def t). rewrite Hd.
+    change (tkind_eqb (bk (btok_of x)) KId) with (is_id x). rewrite Hx. rewrite IH. cbn [map].
+    unfold numd, btok_of at 2. cbn [tk tw tt btok_of bt bw].
+    rewrite slookup_defs. destruct (dlookup ds (tt x)); reflexivity.
+  - intros t x id c r Hd Hp Hi Hc IH. cbn [map sdefined DSt]. rewrite Hd, Hp.
+    change (b_is KId "defined" (btok_of t)) with (is_def t). rewrite Hd.
+    assert (Hxk : is_id x = false).
+    { unfold is_punct in Hp. apply andb_true_iff in Hp. destruct Hp as [Hk _]. unfold is_id. destruct (tk x); try discriminate; reflexivity. }
+    change (tkind_eqb (bk (btok_of x)) KId) with (is_id x). rewrite Hxk.
+    change (b_is KPunct "(" (btok_of x)) with (is_punct "(" x). rewrite Hp.
+    change (tkind_eqb (bk (btok_of id)) KId) with (is_id id). rewrite Hi.
+    change (b_is KPunct ")" (btok_of c)) with (is_punct ")" c). rewrite Hc. cbn [andb].
+    rewrite IH. cbn [map]. unfold numd, btok_of at 2. cbn [tk tw tt btok_of bt bw].
+    rewrite slookup_defs. destruct (dlookup ds (tt id)); reflexivity.
+  - intros t r Hd Ho IH. cbn [map sdefined DSt]. rewrite Hd.
+    change (b_is KId "defined" (btok_of t)) with (is_def t). rewrite Hd. now rewrite IH.
+Qed.
+
+Lemma EI_DSt d ne ts : wfd2 ts = true ->
+  map sp (EI (mtable ds) d ne ts) = map sp (flat_map (E (mtable ds) d ne) (DSt ts)).
+Proof.
+  apply (items_ind (fun l => map sp (EI (mtable ds) d ne l) = map sp (flat_map (E (mtable ds) d ne) (DSt l)))); [reflexivity| | |].
+  - intros t x r Hd Hp Hx Hnp IH. cbn [EI DSt]. unfold is_def in Hd. rewrite Hd, Hnp. fold (is_def t).
+    unfold is_def. rewrite Hd, Hp. cbn [flat_map map]. rewrite E_eq. cbn [numd is_id tk tkind_eqb negb app map].
+    rewrite IH. f_equal. unfold sp, defined_tok, numd. cbn [tk tt]. rewrite get_mtable.
+    destruct (dlookup ds (tt x)); reflexivity.
+  - intros t x id c r Hd Hp Hi Hc IH. cbn [EI DSt]. unfold is_def in Hd. rewrite Hd, (is_punct_txt _ _ Hp).
+    unfold is_def. rewrite Hd, Hp. cbn [flat_map map]. rewrite E_eq. cbn [numd is_id tk tkind_eqb negb app map].
+    rewrite IH. f_equal. unfold sp, defined_tok, numd. cbn [tk tt]. rewrite get_mtable.
+    destruct (dlookup ds (tt id)); reflexivity.
+  - intros t r Hd Ho IH. cbn [EI DSt]. unfold is_def in Hd. rewrite Hd. unfold is_def. rewrite Hd.
+    cbn [flat_map]. now rewrite !map_app, IH.
+Qed.
+
 (* ---------- main theorem ---------- *)
+Theorem objlike_defined_main (lead cat_fix str_white resub_fix va_fix va_whole : bool) (max_level : nat) (input : list tok) :
+  wfd2 input = true ->
+  S (List.length ds) < max_level ->
+  exists n, forall fuel, n <= fuel ->
+    exists out,
+      expand lead cat_fix str_white resub_fix None false va_fix va_whole max_level (mtable ds) fuel input = Ok out /\
+      run_spec fuel (stable_of_defs ds) (map btok_of input) = Ok (map sp out).
+Proof.
+  intros Hin Hlev.
+  pose proof (DSt_okd input Hin) as Hd.
+  assert (Hd_t : forallb okt (DSt input) = true) by (apply (forallb_impl okd okt); [apply okd_okt|assumption]).
+  assert (Hd_b : forallb okb (map btok_of (DSt input)) = true).
+  { rewrite forallb_forall. intros x Hx. apply in_map_iff in Hx. destruct Hx as (t & <- & Ht).
+    apply okd_okb. rewrite forallb_forall in Hd. now apply Hd. }
+  destruct (expand_objlike_defined lead cat_fix str_white resub_fix va_fix va_whole max_level (mtable ds) Hobj_m input
+              (wfd2_wfd input Hin)) as (n1 & H1).
+  { unfold names, mtable. now rewrite !map_length. }
+  destruct (expandS_objlike (stable_of_defs ds) HSobj_s (map btok_of (DSt input)) Hd_b) as (n2 & H2).
+  exists (n1 + n2). intros fuel Hf. eexists. split; [apply H1; lia|].
+  unfold run_spec. rewrite table_ok_defs. cbn [negb]. rewrite sdefined_DSt by assumption.
+  rewrite H2 by lia. f_equal. unfold EI_all.
+  rewrite EI_DSt by assumption.
+  rewrite (corr _ [None] [] (DSt input)); [|intros s; reflexivity|assumption].
+  unfold names, snames, mtable, stable_of_defs. rewrite !map_length. rewrite !map_map. reflexivity.
+Qed.
+
 Theorem objlike_main (lead cat_fix str_white resub_fix va_fix va_whole : bool) (max_level : nat) (input : list tok) :
   forallb okd input = true ->
   S (List.length ds) < max_level ->
